@@ -37,7 +37,10 @@ def ev_ops(stream, kind='s', t0=0, clock='arrival'):
     of step: not monotone in arrival order, with ties) or 'same' (all equal).  Identifiers stay unique."""
     def ts(i):
         return t0 + i if clock == 'arrival' else 50 if clock == 'same' else 100 + (i * 7919 + 3 * (i % 2)) % 11
-    return [f'ev e{t0 + i} {ts(i)} {kind} {d}' for i, d in enumerate(stream)]
+    # kind 'mixed': simple events with a complex and an action event (as the engine feeds them back) every few positions
+    def kd(i):
+        return kind if kind != 'mixed' else 'sscsas'[i % 6]
+    return [f'ev e{t0 + i} {ts(i)} {kd(i)} {d}' for i, d in enumerate(stream)]
 
 
 def locks_left_held(rd):
@@ -59,6 +62,40 @@ def locks_left_held(rd):
                 except Exception:   # noqa
                     pass
     return out
+
+
+def accessors_disagree(rd):
+    """the public read-only accessors of the decider, of its runs and of their histories describe ONE state: whatever a
+    user (or a component the project does not ship) reads through any of them agrees with what `all_runs()` shows."""
+    dec = rd.dec
+    for r in dec.all_runs():
+        ph, pa, rid = r.phenomenon_name, r.pattern.name, r.run_id
+        if dec.run_at(ph, pa, rid) is not r:
+            return f"run_at({ph!r}, {pa!r}, {rid!r}) is not the run all_runs() shows"
+        if not any(x is r for x in dec.runs_from(ph, pa)):
+            return f"runs_from({ph!r}, {pa!r}) lacks run {rid}"
+        # (a run a peer's record created AT its last block is stored halted -- arbitrary messages may say that; whether
+        # a finished run may be stored is C12's business, not this oracle's)
+        if r.is_complete() != (r.block_index >= len(r.pattern.blocks)):
+            return f"run {rid}: is_complete()={r.is_complete()} at block {r.block_index} of {len(r.pattern.blocks)}"
+        h = r.history()
+        evs = h.events
+        flat = [e for g in evs for e in evs[g]]
+        if h.size() != len(flat) or list(h.all_events()) != flat or list(h.all_groups()) != list(evs.keys()):
+            return f"run {rid}: history size()/all_events()/all_groups() disagree with events"
+        for g in evs:
+            if list(h.group(g)) != evs[g]:
+                return f"run {rid}: history.group({g!r}) differs from events[{g!r}]"
+        ser = r.serialize()
+        if (ser.run_id, ser.phenomenon_name, ser.pattern_name, ser.block_index) != (rid, ph, pa, r.block_index) \
+                or ser.history.events.keys() != evs.keys() or any(ser.history.events[g] != evs[g] for g in evs):
+            return f"run {rid}: serialize() describes another state than the run's accessors"
+    for ph_obj in dec.phenomena():
+        for pat in ph_obj.patterns:
+            for x in dec.runs_from(ph_obj.name, pat.name):
+                if x.phenomenon_name != ph_obj.name or x.pattern.name != pat.name:
+                    return f"runs_from({ph_obj.name!r}, {pat.name!r}) returns a run of {x.phenomenon_name}/{x.pattern.name}"
+    return None
 
 
 def history_extremes(rd):
@@ -111,6 +148,12 @@ def run_cases(ctx: Ctx, cases: Iterable[Case], res: Result,
                 if held:
                     res.violations.append(Violation('lock-left-held', f"after {op!r} (step {k}) the calling thread still owns {held}: "
                                                     f"no other thread can use that object again", {**case.to_json(), 'failing_step': k}))
+                    bad = (k, o, o)
+                    rdec = None
+            if bad is None:
+                ax = accessors_disagree(rd)
+                if ax is not None:
+                    res.violations.append(Violation('accessors-disagree', f"after {op!r} (step {k}) {ax}", {**case.to_json(), 'failing_step': k}))
                     bad = (k, o, o)
                     rdec = None
             if bad is None and op.startswith('ev '):
